@@ -19,16 +19,20 @@ def parseDKey (j : Json) : Except String DKey :=
     | .error _ =>
       match j.getObjVal? "x" with
       | .ok v => do return .idx (← v.getInt?)       -- an `Index` object held as a dict key
-      | .error _ => do
-        let id ← j.getObjValAs? Nat "l"
-        let v ← j.getObjValAs? Nat "v"
-        return .lit id v
+      | .error _ =>
+        match j.getObjVal? "o" with
+        | .ok v => do return .obj (← v.getNat?)      -- any other hashable key object (Key instance, tuple, …): an atom
+        | .error _ => do
+          let id ← j.getObjValAs? Nat "l"
+          let v ← j.getObjValAs? Nat "v"
+          return .lit id v
 
 def dkeyJson : DKey → Json
   | .str s => Json.mkObj [("s", s)]
   | .int i => Json.mkObj [("i", toJson i)]
   | .idx i => Json.mkObj [("x", toJson i)]
   | .lit id v => Json.mkObj [("l", toJson id), ("v", toJson v)]
+  | .obj id => Json.mkObj [("o", toJson id)]
 
 def parsePKey (j : Json) : Except String PKey :=
   match j with
@@ -43,10 +47,13 @@ def parsePKey (j : Json) : Except String PKey :=
       | .error _ =>
         match j.getObjVal? "i" with
         | .ok v => do return .int (← v.getInt?)
-        | .error _ => do
-          let id ← j.getObjValAs? Nat "l"
-          let v ← j.getObjValAs? Nat "v"
-          return .lit id v
+        | .error _ =>
+          match j.getObjVal? "o" with
+          | .ok v => do return .obj (← v.getNat?)
+          | .error _ => do
+            let id ← j.getObjValAs? Nat "l"
+            let v ← j.getObjValAs? Nat "v"
+            return .lit id v
 
 def pkeyJson : PKey → Json
   | .str s => Json.mkObj [("s", s)]
@@ -55,6 +62,7 @@ def pkeyJson : PKey → Json
   | .self => Json.str "SELF"
   | .skip => Json.str "SKIP"
   | .lit id v => Json.mkObj [("l", toJson id), ("v", toJson v)]
+  | .obj id => Json.mkObj [("o", toJson id)]
 
 def parsePath (j : Json) : Except String Path := do
   (← j.getArr?).toList.mapM parsePKey
